@@ -168,6 +168,18 @@ Theorem cfour_whole_file_no_number_lost : c4ecp_no_number_lost_stmt.
 Proof. exact GenbasEcpSpec.c4ecp_no_number_lost. Qed.
 Print Assumptions cfour_whole_file_no_number_lost.
 
+(* VeloxChem (electron shells only): the writer is total and prints every number of the normalised basis as a token *)
+From BSE Require Import Model.Veloxchem Proofs.VeloxchemDefs.
+From BSE Require Proofs.VeloxchemSpec.
+
+Theorem veloxchem_write_total : vlx_write_total_stmt.
+Proof. exact VeloxchemSpec.vlx_write_total. Qed.
+Print Assumptions veloxchem_write_total.
+
+Theorem veloxchem_no_number_lost : vlx_no_number_lost_stmt.
+Proof. exact VeloxchemSpec.vlx_no_number_lost. Qed.
+Print Assumptions veloxchem_no_number_lost.
+
 (* the Gaussian94 ECP blocks: every gaussian exponent / coefficient (with the D marker the writer prints), every r exponent
    and the electron count is a token of the text *)
 From BSE Require Import Model.G94Ecp Proofs.G94EcpDefs.
